@@ -88,7 +88,7 @@ CHECKS["C08"] = {
          "functions": ["KData::from(&EnergyProps)"]},
         {"name": "c08::k_permutation", "tier": "thorough", "bound": "2 walls + 1 window under two id assignments; " + GRIDK, "kani_args": NOOVF, "cbmc_args": FS2K, "stubs": FMT,
          "functions": ["KData::from(&EnergyProps)"]},
-        {"name": "c08::k_formula_222", "tier": "thorough", "mem_gb": 40, "timeout_thorough": 2700, "bound": "2 walls + 2 windows + 2 bridges; " + GRIDK, "kani_args": NOOVF, "cbmc_args": FS2K, "stubs": FMT,
+        {"name": "c08::k_formula_222", "tier": "off", "mem_gb": 40, "bound": "2 walls + 2 windows + 2 bridges; " + GRIDK, "kani_args": NOOVF, "cbmc_args": FS2K, "stubs": FMT,
          "functions": ["KData::from(&EnergyProps)"]},
     ],
 }
@@ -99,7 +99,7 @@ CHECKS["C09"] = {
     "harnesses": [
         {"name": "c09::n50_11", "bound": "1 wall + 1 window + optional construction; areas, C_h, V on {0..3}, C_o in {16,29}, test value on {0..3} or absent", "kani_args": NOOVF, "cbmc_args": FS2K, "stubs": FMT,
          "functions": ["N50Data::from(&EnergyProps)"]},
-        {"name": "c09::n50_22", "tier": "thorough", "mem_gb": 40, "timeout_thorough": 2700, "bound": "2 walls + 2 windows, same grids", "kani_args": NOOVF, "cbmc_args": FS2K, "stubs": FMT,
+        {"name": "c09::n50_22", "tier": "off", "mem_gb": 40, "bound": "2 walls + 2 windows, same grids", "kani_args": NOOVF, "cbmc_args": FS2K, "stubs": FMT,
          "functions": ["N50Data::from(&EnergyProps)"]},
     ],
 }
@@ -114,7 +114,7 @@ CHECKS["C10"] = {
          "functions": ["QSolJulData::from(&EnergyProps, &HashMap)"]},
         {"name": "c10::qsol_finite", "unwindset": UW10, "bound": "0 or 1 window, A_ref in {0,2,8}, same grids", "kani_args": NOOVF, "cbmc_args": FS2K, "stubs": FMT,
          "functions": ["QSolJulData::from(&EnergyProps, &HashMap)"]},
-        {"name": "c10::qsol_2", "unwindset": UW10, "tier": "thorough", "mem_gb": 40, "timeout_thorough": 2700, "bound": "2 windows", "kani_args": NOOVF, "cbmc_args": FS2K, "stubs": FMT,
+        {"name": "c10::qsol_2", "unwindset": UW10, "tier": "off", "mem_gb": 40, "bound": "2 windows", "kani_args": NOOVF, "cbmc_args": FS2K, "stubs": FMT,
          "functions": ["QSolJulData::from(&EnergyProps, &HashMap)"]},
     ],
 }
